@@ -1653,10 +1653,28 @@ class IsNa(Elemwise):
 
 
 class Mask(Elemwise):
-    _projection_passthrough = True
     _parameters = ["frame", "cond", "other"]
     _defaults = {"other": np.nan}
     operation = M.mask
+
+    def _simplify_up(self, parent, dependents):
+        if isinstance(parent, Projection) and self.frame.ndim > 1:
+            # cond / other may be frames as well: they have to follow the projection
+            columns = determine_column_projection(self, parent, dependents)
+            columns = _convert_to_list(columns)
+            columns = [col for col in self.frame.columns if col in columns]
+            if columns == self.frame.columns:
+                return
+            substitutions = {"frame": self.frame[columns]}
+            for param in ("cond", "other"):
+                operand = self.operand(param)
+                if isinstance(operand, Expr) and operand.ndim > 1:
+                    substitutions[param] = operand[
+                        [col for col in operand.columns if col in columns]
+                    ]
+            return type(parent)(
+                self.substitute_parameters(substitutions), *parent.operands[1:]
+            )
 
 
 class Round(Elemwise):
@@ -1666,10 +1684,10 @@ class Round(Elemwise):
 
 
 class Where(Elemwise):
-    _projection_passthrough = True
     _parameters = ["frame", "cond", "other"]
     _defaults = {"other": np.nan}
     operation = M.where
+    _simplify_up = Mask._simplify_up
 
 
 def _check_divisions(df, i, division_min, division_max, last):
